@@ -19,8 +19,8 @@ from tracecheck import TraceChecker
 from vlib import InfraError
 
 TIERS = {
-    "quick": dict(executions=120, sim_num=10, sim_depth=40, tlc_timeout=900, mc_cfg="MCRtrSocket.cfg"),
-    "thorough": dict(executions=2500, sim_num=150, sim_depth=60, tlc_timeout=3400, mc_cfg="MCRtrSocket_big.cfg"),
+    "quick": dict(executions=120, sim_num=300, sim_max=3000, sim_depth=40, tlc_timeout=900, mc_cfg="MCRtrSocket.cfg", conv_cfg="MCRtrSocketConv.cfg"),
+    "thorough": dict(executions=2500, sim_num=4000, sim_max=40000, sim_depth=60, tlc_timeout=3400, mc_cfg="MCRtrSocket_big.cfg", conv_cfg="MCRtrSocketConv_big.cfg"),
 }
 RELEVANT = {
     "C04": lambda e: e["e"] in ("recv", "rfault", "hang"),
@@ -65,6 +65,68 @@ def projection(trace):
         elif k in ("rfault", "close", "hang", "reset"):
             out.append((k, e.get("kind")))
     return out
+
+
+TOUR_FILES = ("RtrSocket.tla", "MCRtrSocket.tla", "MCRtrSocketCover.tla", "MCRtrSocketCover.cfg")
+
+
+def tour_digest():
+    return vlib.digest([open(os.path.join(vlib.SPEC, f)).read() for f in TOUR_FILES])
+
+
+def tour_generate(tag, dest):
+    """Runs TLC on MCRtrSocketCover and stores {digest, items: [{cls, evs}]} (gzip) at dest."""
+    import gzip
+    r = vlib.run_tlc("MCRtrSocketCover", "MCRtrSocketCover.cfg", tag, workers=8, timeout=3000, xmx="16g")
+    if not r.ok:
+        raise InfraError("transition tour failed: %s %s\n%s" % (r.error, r.violation, r.out[-1500:]))
+    items = vlib.parse_behaviours(r.out)
+    d = {"digest": tour_digest(), "states": r.distinct, "transitions": r.generated, "wall_s": round(r.wall, 1), "items": items}
+    tmp = dest + ".%d" % os.getpid()
+    with gzip.open(tmp, "wt") as f:
+        json.dump(d, f)
+    os.replace(tmp, dest)
+    return d
+
+
+def tour(pid, every_path):
+    """Behaviours that reach every transition class of MCRtrSocketCover.tla.  They depend on the specification only (never on
+    the code under test), so the result of the TLC run is committed as spec/tour/MCRtrSocketCover.json.gz together with the
+    digest of the spec files it was made from; when the files have changed it is regenerated (into build/cache)."""
+    import gzip
+    dg = tour_digest()
+    d = None
+    for path in (os.path.join(vlib.SPEC, "tour", "MCRtrSocketCover.json.gz"),
+                 os.path.join(vlib.VERIF, "build", "cache", "tour-%s.json.gz" % dg)):
+        if os.path.exists(path):
+            try:
+                with gzip.open(path, "rt") as f:
+                    dd = json.load(f)
+                if dd.get("digest") == dg:
+                    d, src = dd, os.path.relpath(path, vlib.VERIF)
+                    break
+            except (ValueError, OSError, EOFError):
+                pass
+    if d is None:
+        vlib.mkdir(os.path.join(vlib.VERIF, "build", "cache"))
+        path = os.path.join(vlib.VERIF, "build", "cache", "tour-%s.json.gz" % dg)
+        d, src = tour_generate(pid + "-tour", path), "regenerated (spec changed since spec/tour was committed)"
+    by = {}
+    for it in d["items"]:
+        by.setdefault(vlib.digest(it["cls"]), []).append(it["evs"])
+    if every_path:
+        seen, behs = set(), []
+        for v in by.values():
+            for b in v:
+                k = vlib.digest(b)
+                if k not in seen:
+                    seen.add(k)
+                    behs.append(b)
+    else:
+        behs = [min(v, key=len) for v in by.values()]
+    info = {"classes": len(by), "model_states": d.get("states"), "model_transitions": d.get("transitions"), "source": src,
+            "paths_per_class": "all found by the 8 TLC workers" if every_path else "shortest"}
+    return behs, info
 
 
 def run_c04(ctx, verdict, wd, P):
@@ -181,14 +243,34 @@ def run(ctx):
     if dead:
         raise InfraError("vacuity: actions never taken in MCRtrSocket: %s" % dead)
 
+    if pid == "C08":
+        # convergence of the envelope: adversarial prefix, then a correct cache for ever (MCRtrSocketConv.tla)
+        rc_ = vlib.tlc_model("MCRtrSocketConv", P["conv_cfg"], pid + "-conv", workers=16, timeout=P["tlc_timeout"], xmx="24g", coverage=True)
+        cov["model_convergence"] = {"spec": "MCRtrSocketConv.tla", "cfg": P["conv_cfg"], **rc_.summary(),
+                                    "checked": "I_Conv (ESTABLISHED with the cache's data within K client steps of the cache turning correct) "
+                                               "I_Progress I_Target P_Stay + the wall-clock bound of the C08 monitor (I_NoMonitorFails)",
+                                    "action_coverage": {k: v[1] for k, v in rc_.coverage.items()}}
+        dead = [k for k, v in rc_.coverage.items() if v[1] == 0 and k != "InitC"]
+        if dead:
+            raise InfraError("vacuity: actions never taken in MCRtrSocketConv: %s" % dead)
+
     # ---- A: TLC-generated conversations
     import mcscript
-    behs = vlib.tlc_behaviours("MCRtrSocket", "MCRtrSocket_sim.cfg", pid + "-simA", P["sim_num"], P["sim_depth"] + 1, seed)
+    behs = vlib.tlc_behaviours("MCRtrSocket", "MCRtrSocket_sim.cfg", pid + "-simA", P["sim_num"], P["sim_depth"] + 1, seed,
+                               workers=8, emit_depth=P["sim_depth"])[:P["sim_max"]]
     scriptA = os.path.join(wd, "scriptA.ndjson")
     nA = mcscript.behaviours_to_script(behs, scriptA)
     traceA, _ = harness(scriptA, "A", {"mode": "script", "script": scriptA, "seed": seed})
     cov["binding_A"] = {"behaviours": len(behs), "script_lines": nA, "events": sum(1 for _ in open(traceA)) if traceA else 0,
                         "generator": "tlc -simulate MCRtrSocket_sim.cfg"}
+
+    # ---- T: transition tour of the model (one run of the real client per kind of transition the envelope has)
+    behsT, tinfo = tour(pid, tier == "thorough")
+    scriptT = os.path.join(wd, "scriptT.ndjson")
+    nT = mcscript.behaviours_to_script(behsT, scriptT)
+    traceT, _ = harness(scriptT, "T", {"mode": "script", "script": scriptT, "seed": seed})
+    cov["binding_T"] = dict(tinfo, behaviours=len(behsT), script_lines=nT, events=sum(1 for _ in open(traceT)) if traceT else 0,
+                            generator="tlc MCRtrSocketCover.cfg: shortest behaviour (TLCExt!Trace) to every class of transition (abstract client state x event class)")
 
     # ---- B: seeded conversations with every misbehaviour class
     scriptB = os.path.join(wd, "scriptB.ndjson")
